@@ -106,11 +106,17 @@ func findSchemeSwitches(w *World) []schemeSwitch {
 				return true
 			}
 			ss := schemeSwitch{Fn: obj, Decl: fd, Stmt: sw, Cases: map[string]string{}, Pos: sw.Pos(), Derived: derived}
+			allReturn := true
 			for _, st := range sw.Body.List {
 				cc := st.(*ast.CaseClause)
 				if cc.List == nil {
 					ss.Default = cc
 					continue
+				}
+				if n := len(cc.Body); n == 0 {
+					allReturn = false
+				} else if _, isRet := cc.Body[n-1].(*ast.ReturnStmt); !isRet {
+					allReturn = false
 				}
 				typ := constructedType(info, cc)
 				for _, e := range cc.List {
@@ -118,6 +124,21 @@ func findSchemeSwitches(w *World) []schemeSwitch {
 						ss.Cases[s] = typ
 					}
 				}
+			}
+			if ss.Default == nil && allReturn {
+				// every case returns: what follows the switch in its block is what an unknown scheme gets
+				ast.Inspect(fd.Body, func(y ast.Node) bool {
+					blk, ok := y.(*ast.BlockStmt)
+					if !ok {
+						return true
+					}
+					for i, bst := range blk.List {
+						if bst == ast.Stmt(sw) && i+1 < len(blk.List) {
+							ss.Default = &ast.CaseClause{Body: blk.List[i+1:]}
+						}
+					}
+					return true
+				})
 			}
 			out = append(out, ss)
 			return true
@@ -383,6 +404,7 @@ var documentedSchemes = map[string]map[string]string{
 }
 
 func checkC18(w *World, r *Report) {
+	buildFnCallers(w)
 	r.Explanation = "Decides the table structure of address interpretation: (R18.1) the case sets of every switch over a URL scheme in the four dispatchers contain every documented scheme mapped to the documented implementation type (table transcribed from README.md) and each has a default whose every return carries a non-nil error; sibling switches of one dispatcher agree; (R18.2) every implementation selected for an x+tls scheme derives its secure flag from a +tls test of the scheme (and C04/R04.5 ties that flag to a TLS primitive), and ProtoAddress.Addr has a case for every socket-like scheme a dispatcher admits; (R18.3) all Unmarshal{YAML,JSON,Flag} entry points of one configuration type reach the same scheme dispatcher; (R18.4) in the parsing cone no pointer that is nil on some path is dereferenced without a dominating nil test; (R18.6) no interface{} value out of a decoder is type-asserted without the comma-ok form where valid input can reach it. Not decided: net/url parsing, the reflection/unsafe bridge in yamlparser.go, arbitrary malformed strings."
 	r.NotDecided = []string{"net/url parsing of malformed strings", "goccy/go-yaml + reflection bridge (yamlparser.go)", "strings 'near' a scheme beyond the switch tables"}
 	r.Trusted = []string{"README.md's scheme lists as transcribed in the checker's documentedSchemes table"}
@@ -1031,6 +1053,56 @@ func c18JsonInfeasible(fn *ssa.Function, at ssa.Instruction) bool {
 			prefixed = append(prefixed, c.Call.Args[0])
 		}
 	}
+	// a string parameter that every caller fills with such a string (the decoding moved into a helper which is only
+	// called from the branch that tested the prefix)
+	for i, prm := range fn.Params {
+		if bt, ok := prm.Type().Underlying().(*types.Basic); !ok || bt.Kind() != types.String {
+			continue
+		}
+		ncall, all := 0, true
+		if fn.Object() != nil {
+			for _, caller := range fnCallers[fn] {
+				for _, c := range callsIn(caller) {
+					if c.Common().StaticCallee() != fn || i >= len(c.Common().Args) {
+						continue
+					}
+					ncall++
+					ci, ok := c.(ssa.Instruction)
+					okSite := false
+					if ok {
+						for _, b := range caller.Blocks {
+							if len(b.Instrs) == 0 {
+								continue
+							}
+							ifi, isIf := b.Instrs[len(b.Instrs)-1].(*ssa.If)
+							if !isIf || !edgeDominates(b, 0, ci.Block()) {
+								continue
+							}
+							hc, isCall := ifi.Cond.(*ssa.Call)
+							if !isCall {
+								// `HasPrefix(..) && HasSuffix(..)`: the condition is a phi of the second test, reached only when the first held
+								continue
+							}
+							if !isPkgFunc(sCallee(hc), "strings", "HasPrefix") || len(hc.Call.Args) != 2 || hc.Call.Args[0] != c.Common().Args[i] {
+								continue
+							}
+							if k, isK := hc.Call.Args[1].(*ssa.Const); isK && k.Value != nil && k.Value.Kind() == constant.String {
+								if sv := constant.StringVal(k.Value); len(sv) > 0 && !jsonStart(sv[0]) {
+									okSite = true
+								}
+							}
+						}
+					}
+					if !okSite {
+						all = false
+					}
+				}
+			}
+		}
+		if ncall > 0 && all {
+			prefixed = append(prefixed, prm)
+		}
+	}
 	if len(prefixed) == 0 {
 		return false
 	}
@@ -1058,4 +1130,22 @@ func c18JsonInfeasible(fn *ssa.Function, at ssa.Instruction) bool {
 		}
 	}
 	return false
+}
+
+// fnCallers: static callers of module functions (built on first use by c18NilDeref's caller).
+var fnCallers = map[*ssa.Function][]*ssa.Function{}
+
+func buildFnCallers(w *World) {
+	if len(fnCallers) > 0 {
+		return
+	}
+	for g := range allModuleFuncs(w, w.SSA()) {
+		seen := map[*ssa.Function]bool{}
+		for _, c := range callsIn(g) {
+			if sc := c.Common().StaticCallee(); sc != nil && !seen[sc] {
+				seen[sc] = true
+				fnCallers[sc] = append(fnCallers[sc], g)
+			}
+		}
+	}
 }
